@@ -65,6 +65,7 @@ type redisWorld struct {
 	nontrivial    bool
 	stopRequested bool
 	hostTasks     []*simhook.Task
+	netCounts     map[string]int
 }
 
 func newRedisWorld(sc *RedisScenario) *redisWorld {
@@ -376,6 +377,26 @@ func (w *redisWorld) Final() *simrt.Violation {
 	return nil
 }
 
+// Freeze snapshots counters at verdict time (teardown traffic is not part of the run).
+func (w *redisWorld) Freeze() {
+	w.netCounts = map[string]int{}
+	for k, v := range w.env.Net.Counts {
+		w.netCounts[k] = v
+	}
+}
+
+// Teardown stops the service and closes every client after the verdict (not judged).
+func (w *redisWorld) Teardown() {
+	for _, c := range w.env.Clients {
+		c.Close()
+	}
+	for _, n := range w.env.Cluster.Nodes {
+		n.Silent = false
+		n.CloseConns()
+	}
+	w.env.Stop()
+}
+
 func describeReq(r world.Request) string {
 	if len(r.Raw) > 0 {
 		return fmt.Sprintf("raw:%q", trunc(r.Raw, 40))
@@ -395,7 +416,8 @@ func runRedis(t *testing.T, sc *RedisScenario, w *redisWorld) harness.Outcome {
 	res := simrt.Run(t, w, sc.Options())
 	out := harness.Outcome{Res: res, Faults: w.faultsFired, Nontrivial: w.nontrivial}
 	if w.env != nil {
-		for k, v := range w.env.Net.Counts {
+		world.DropStats(w.env.Name)
+		for k, v := range w.netCounts {
 			if k == "frag" || k == "backpressure" || k == "dial-refused" || k == "dial-timeout" || k == "rst-on-closed" || k == "rst-on-close-unread" {
 				out.Faults[k] += v
 			}
